@@ -477,6 +477,9 @@ fn gen_case(rng: &mut Rng, s: &mut Sink, dir: &str, recsize: usize, cfg: Cfg, le
             exec(&mut sut, s, &Op::Get { k: k.clone(), bytes_api: true });
             // both indexes once more, after every expiry in play has passed
             exec(&mut sut, s, &Op::Range { a: vec![], b: vec![0xFF; 8], lim: 100 });
+            // small limits: entries that linger expired in the index must not count towards the limit
+            exec(&mut sut, s, &Op::Range { a: vec![], b: vec![0xFF; 8], lim: rng.range(1, 3) as usize });
+            exec(&mut sut, s, &Op::Range { a: k.clone(), b: vec![0xFF; 8], lim: 1 });
             exec(&mut sut, s, &Op::TtlQ { k: k.clone() });
             continue;
         }
